@@ -144,6 +144,8 @@ where
                 .name("vring_worker".to_string())
                 .spawn(move || handler2.run())
                 .map_err(VhostUserHandlerError::SpawnVringWorker)?;
+            #[cfg(feature = "verif-hooks")]
+            vhost::verif::thread_spawned();
 
             handlers.push(handler);
             worker_threads.push(worker_thread);
@@ -278,7 +280,11 @@ where
         // Disable all vrings
         for (index, vring) in self.vrings.iter().enumerate() {
             vring.set_enabled(false);
+            #[cfg(feature = "verif-hooks")]
+            vhost::verif::point("ctl.reset.state_changed");
             self.update_vring_registration(vring, index as u8)?;
+            #[cfg(feature = "verif-hooks")]
+            vhost::verif::point("ctl.reset.epoll_updated");
         }
 
         // Reset device state, retain protocol state
@@ -453,7 +459,11 @@ where
         // VHOST_USER_SET_VRING_KICK, and stop ring upon receiving
         // VHOST_USER_GET_VRING_BASE.
         vring.set_queue_ready(false);
+        #[cfg(feature = "verif-hooks")]
+        vhost::verif::point("ctl.stop.state_changed");
         self.update_vring_registration(vring, index as u8)?;
+        #[cfg(feature = "verif-hooks")]
+        vhost::verif::point("ctl.stop.epoll_updated");
 
         let next_avail = vring.queue_next_avail();
 
@@ -539,7 +549,11 @@ where
         // or after it has been disabled by VHOST_USER_SET_VRING_ENABLE
         // with parameter 0.
         vring.set_enabled(enable);
+        #[cfg(feature = "verif-hooks")]
+        vhost::verif::point("ctl.enable.state_changed");
         self.update_vring_registration(vring, index as u8)?;
+        #[cfg(feature = "verif-hooks")]
+        vhost::verif::point("ctl.enable.epoll_updated");
 
         Ok(())
     }
@@ -799,6 +813,8 @@ impl<T: VhostUserBackend> Drop for VhostUserHandler<T> {
         self.send_exit_event();
 
         for thread in self.worker_threads.drain(..) {
+            #[cfg(feature = "verif-hooks")]
+            vhost::verif::before_join(thread.thread().id());
             if let Err(e) = thread.join() {
                 error!("Error in vring worker: {:?}", e);
             }
